@@ -36,6 +36,7 @@ type c20Job struct {
 	end      time.Duration // first disruption affecting it (horizon if none)
 	ended    bool
 	endKind  string
+	lenient  bool // shares its reference with another pending job of the same actor: which of the two is live is unspecified
 }
 
 func c20Jobs(r *R) {
@@ -101,7 +102,9 @@ func c20Jobs(r *R) {
 				mine = append(mine, j)
 			}
 		}
-		// a reference used twice on the same actor: the property does not say which job survives; keep one per actor
+		// A reference used twice on the same actor while the first job is still pending: the property does not say which
+		// of the two is live afterwards, so for such a pair only the negative half is checked (nothing of either fires
+		// after Cancel(reference) / Clear / owner death / restart, and Cancel of the reference succeeds).
 		var keep []*c20Job
 		for _, j := range mine {
 			if j.ref == "shared" {
@@ -111,6 +114,18 @@ func c20Jobs(r *R) {
 				sharedSeen[o] = true
 			}
 			keep = append(keep, j)
+		}
+		for i, j := range keep {
+			if i > 0 && j.kind != 3 && r.Chance(20) {
+				for _, e := range keep[:i] {
+					if e.ref != "" && e.kind != 3 {
+						j.ref = e.ref
+						j.lenient, e.lenient = true, true
+						r.Count("reference-reused-on-same-actor")
+						break
+					}
+				}
+			}
 		}
 		w.Tell(ownerRef(o), w.NewCmd("setup", o, func(ctx vivid.ActorContext, p *Probe) {
 			for _, j := range keep {
@@ -180,6 +195,7 @@ func c20Jobs(r *R) {
 	}
 	r.Sample(map[string]any{"jobs": jdesc, "disruptions": ddesc})
 	cancelResults := map[int]error{}
+	cancelLive := map[int]bool{}
 	dead := map[int]bool{}
 	for di, d := range ds {
 		di, d := di, d
@@ -202,7 +218,11 @@ func c20Jobs(r *R) {
 		}
 		switch d.kind {
 		case 0:
-			endJobs(func(j *c20Job) bool { return j == d.job })
+			mu.Lock()
+			wasLive := !d.job.ended
+			mu.Unlock()
+			cancelLive[di] = wasLive
+			endJobs(func(j *c20Job) bool { return j.ref == d.job.ref })
 			w.Tell(ownerRef(d.owner), w.NewCmd("disrupt", di, func(ctx vivid.ActorContext, p *Probe) {
 				err := ctx.Scheduler().Cancel(d.job.ref)
 				mu.Lock()
@@ -261,8 +281,9 @@ func c20Jobs(r *R) {
 			r.Fail("C20/cancel-unknown-result", "Cancel of an unknown reference returned %v (expected not-found)", err)
 			return
 		}
-		if d.kind == 0 && err != nil && !d.job.ended {
-			r.Fail("C20/cancel-known-failed", "Cancel(%q) returned %v", d.job.ref, err)
+		if d.kind == 0 && err != nil && cancelLive[di] && d.job.kind != 0 && !d.job.lenient {
+			// a Loop/Cron job that nothing ended before is live: cancelling its reference must succeed
+			r.Fail("C20/cancel-known-failed", "Cancel(%q) of a live %s job returned %v", d.job.ref, []string{"Once", "Loop", "Cron"}[d.job.kind], err)
 			return
 		}
 	}
@@ -324,6 +345,9 @@ func c20Jobs(r *R) {
 				r.Fail(fmt.Sprintf("C20/fired-after-%s kind=%s", j.endKind, kindName), "job%d (%s every/after %v, scheduled at %v) was delivered at %v although it ended at %v (%s); deliveries: %v", j.id, kindName, j.period, j.start, g, j.end, j.endKind, got)
 				return
 			}
+			if j.lenient {
+				continue
+			}
 			ok := false
 			for _, f := range append(append([]time.Duration{}, must...), may...) {
 				if f == g {
@@ -344,12 +368,15 @@ func c20Jobs(r *R) {
 			}
 		}
 		for _, f := range must {
+			if j.lenient {
+				break
+			}
 			if seen[f] == 0 {
 				r.Fail("C20/missed-firing kind="+kindName, "job%d (%s, period/delay %v, scheduled at %v, valid until %v) was not delivered at %v; deliveries: %v", j.id, kindName, j.period, j.start, j.end, f, got)
 				return
 			}
 		}
-		if j.kind == 0 && len(got) > 1 {
+		if j.kind == 0 && len(got) > 1 && !j.lenient {
 			r.Fail("C20/once-fired-more-than-once", "job%d (Once) was delivered at %v", j.id, got)
 			return
 		}
